@@ -133,7 +133,11 @@ class TabIntpCompuMethod(CompuMethod):
                                        domain_samples: List[Union[int,
                                                                   float]]) -> Union[float, None]:
         for i in range(0, len(range_samples) - 1):
-            if (x0 := range_samples[i]) <= x and x <= (x1 := range_samples[i + 1]):
+            x0 = range_samples[i]
+            x1 = range_samples[i + 1]
+            # the samples are not necessarily ascending (e.g., the
+            # physical values of a decreasing function)
+            if (x0 <= x and x <= x1) or (x1 <= x and x <= x0):
                 y0 = domain_samples[i]
                 y1 = domain_samples[i + 1]
                 return y0 + (x - x0) * (y1 - y0) / (x1 - x0)
